@@ -885,6 +885,8 @@ int replayMain(int argc, char **argv) {
   }
   std::string expectProp, expectClause;
   for (int i = 1; i + 1 < argc; ++i)
+    if (!strcmp(argv[i], "--tmp")) g_tmpDir = argv[i + 1];
+  for (int i = 1; i + 1 < argc; ++i)
     if (!strcmp(argv[i], "--expect")) {
       std::string e = argv[i + 1];
       size_t c = e.find(':');
